@@ -45,6 +45,15 @@ using bls::G1; using bls::G2; using bls::G1Affine; using bls::G2Affine; using bl
 
 /* The division-free exponentiation is a template over the exponent's width; BigInt<bits> is a union rounded up to whole native double
    words, so widths that are not a multiple of it carry padding. The exponent object here was used before: its padding holds ones. */
+/* the C++-only public API of wnaf.hpp: a table the caller builds once and then multiplies from (possibly from several threads) */
+template <typename G, typename GA, unsigned W> static void wnaf_tbl_build(void* tbl, const void* baseA) { static_cast<bls::WnafTable<G, W>*>(tbl)->fill_table(*static_cast<const GA*>(baseA)); }
+template <typename G, typename GA, unsigned W> static void wnaf_tbl_mul(void* out, void* tbl, const uint8_t* k32, int recoded) {
+    BigInt<256> k; for (int i = 0; i < 32; i++) k.bytes[i] = k32[i];
+    bls::WnafTable<G, W>& t = *static_cast<bls::WnafTable<G, W>*>(tbl); G r;
+    if (recoded) { bls::WnafScalar<256, W> s; s.from_bigint(k); bls::wnaf_table_multiply(r, t, s); }
+    else bls::wnaf_multiply<G, GA, 256, W>(r, t, k);
+    static_cast<G*>(out)->copy(r);
+}
 template <int W> static void pow_nodiv_w(Fq12& t, const Fq12& a, const uint8_t* k) {
     alignas(16) uint8_t raw[sizeof(BigInt<W>)]; memset(raw, 0xFF, sizeof(raw));
     BigInt<W>* e = reinterpret_cast<BigInt<W>*>(raw); memcpy(e->bytes, k, BigInt<W>::byte_length);
@@ -443,6 +452,19 @@ void jv_gt_pow_nodiv_width(void* out, const void* in, const uint8_t* k40, int wi
     switch (width) { case 64: pow_nodiv_w<64>(t, AT(in), k40); break; case 128: pow_nodiv_w<128>(t, AT(in), k40); break; case 192: pow_nodiv_w<192>(t, AT(in), k40); break;
                      case 320: pow_nodiv_w<320>(t, AT(in), k40); break; default: pow_nodiv_w<256>(t, AT(in), k40); break; }
     OT(out).copy(t);
+}
+/* caller-built w-NAF tables (grp 1/2, window 3..5) */
+size_t jv_wnaf_table_bytes(int grp, int w) {
+    if (grp == 1) return w == 3 ? sizeof(bls::WnafTable<G1, 3>) : w == 5 ? sizeof(bls::WnafTable<G1, 5>) : sizeof(bls::WnafTable<G1, 4>);
+    return w == 3 ? sizeof(bls::WnafTable<G2, 3>) : w == 5 ? sizeof(bls::WnafTable<G2, 5>) : sizeof(bls::WnafTable<G2, 4>);
+}
+void jv_wnaf_table_build(int grp, int w, void* tbl, const void* baseA) {
+    if (grp == 1) { if (w == 3) wnaf_tbl_build<G1, G1Affine, 3>(tbl, baseA); else if (w == 5) wnaf_tbl_build<G1, G1Affine, 5>(tbl, baseA); else wnaf_tbl_build<G1, G1Affine, 4>(tbl, baseA); }
+    else { if (w == 3) wnaf_tbl_build<G2, G2Affine, 3>(tbl, baseA); else if (w == 5) wnaf_tbl_build<G2, G2Affine, 5>(tbl, baseA); else wnaf_tbl_build<G2, G2Affine, 4>(tbl, baseA); }
+}
+void jv_wnaf_table_mul(int grp, int w, void* out, void* tbl, const uint8_t* k32, int recoded) {
+    if (grp == 1) { if (w == 3) wnaf_tbl_mul<G1, G1Affine, 3>(out, tbl, k32, recoded); else if (w == 5) wnaf_tbl_mul<G1, G1Affine, 5>(out, tbl, k32, recoded); else wnaf_tbl_mul<G1, G1Affine, 4>(out, tbl, k32, recoded); }
+    else { if (w == 3) wnaf_tbl_mul<G2, G2Affine, 3>(out, tbl, k32, recoded); else if (w == 5) wnaf_tbl_mul<G2, G2Affine, 5>(out, tbl, k32, recoded); else wnaf_tbl_mul<G2, G2Affine, 4>(out, tbl, k32, recoded); }
 }
 /* decomposition into an object that was used before (for an earlier exponent): what a caller that keeps one PowersOfX around has */
 void jv_decompose_x_reuse(uint64_t* out4, const uint8_t* kprev32, const uint8_t* k32) {
